@@ -269,3 +269,93 @@ Example C10_time_average_hypotheses_satisfiable :
   nondecr_from 0 [(1, 2); (1, 4); (3, 1)] 5 /\ 0 < 5 /\
   integ_from 0 7 [(1, 2); (1, 4); (3, 1)] 5 == 17.
 Proof. split; [cbn; repeat split; discriminate |]. split; [reflexivity | vm_compute; reflexivity]. Qed.
+
+(* ---------------------------------------------------------------------- *)
+(* 7. The tie to the source TEXT (as in Props/C09.v, section 8).
+      Stats/Gen_Stats.v is regenerated on every run by
+      translator/py2gallina_stats.py from the method bodies of WeightedTally
+      and TimestampWeightedTally in src/pydsol/core/statistics.py of the tree
+      under test, and Stats/GenAgree.v proves every generated definition equal
+      to the hand-written model function the theorems above are about -- for
+      all states and arguments and EVERY arithmetic instance, without any
+      hypothesis.  Hence every theorem above is a theorem about what the
+      source says now; three are restated over the generated functions.     *)
+From PV Require Import Stats.Gen_Stats Stats.GenAgree.
+
+Theorem C10_generated_model_is_the_proved_model : forall N : Num,
+  (forall s ow ov, gen_WeightedTally_register N s ow ov = wregister N s ow ov) /\
+  (forall s, gen_WeightedTally_initialize N s = Ok (winit N)) /\
+  (forall s, gen_WeightedTally___init__ N s NameStr = Ok (winit N) /\
+             gen_WeightedTally___init__ N s NameOther = Exn TypeError s) /\
+  (forall s, gen_WeightedTally_n N s = gw_n N s /\ gen_WeightedTally_min N s = gw_min N s /\
+             gen_WeightedTally_max N s = gw_max N s /\ gen_WeightedTally_weighted_sum N s = gw_sum N s /\
+             gen_WeightedTally_weighted_mean N s = gw_mean N s) /\
+  (forall s b, gen_WeightedTally_weighted_variance N s b = gw_variance N b s /\
+               gen_WeightedTally_weighted_stdev N s b = gw_stdev N b s) /\
+  (forall s ot ov, gen_TimestampWeightedTally_register N s ot ov = tsregister N s ot ov) /\
+  (forall s ot, gen_TimestampWeightedTally_end_observations N s ot = ts_end N s ot) /\
+  (forall s, gen_TimestampWeightedTally_initialize N s = Ok (tsinit N)) /\
+  (forall s, gen_TimestampWeightedTally_isactive N s = gts_isactive N s /\
+             gen_TimestampWeightedTally_last_value N s = gts_last_value N s) /\
+  (forall ops s, gen_wrun N s ops = wrun N s ops) /\
+  (forall ops s, gen_tsrun N s ops = tsrun N s ops).
+Proof. exact weighted_timestamp_generated_agree. Qed.
+Print Assumptions C10_generated_model_is_the_proved_model.
+
+(* C10_weighted_accumulators_are_textbook_sums, for a WeightedTally made by the
+   generated __init__ and driven through the generated register / initialize *)
+Theorem C10_generated_weighted_accumulators_are_textbook_sums :
+  forall (sq : Q -> Q) (ops : list (wop (NumQ sq))) (fresh : wstate (NumQ sq)),
+    let NQ := NumQ sq in
+    let obs := weffective sq [] ops in
+    let P := wpos obs in
+    let s := gen_wrun NQ (state_of (gen_WeightedTally___init__ NQ fresh NameStr)) ops in
+    gen_WeightedTally_n NQ s = Z.of_nat (length obs) /\
+    wnz s = Z.of_nat (length P) /\
+    wsw s == sw P /\ gen_WeightedTally_weighted_sum NQ s == swx P /\
+    wmean s == swx P / sw P /\
+    wwtv s == wcen2 (swx P / sw P) P /\
+    match gen_WeightedTally_min NQ s with XNaN => obs = [] | XFin m => is_min m (map snd obs) | _ => False end /\
+    match gen_WeightedTally_max NQ s with XNaN => obs = [] | XFin m => is_max m (map snd obs) | _ => False end.
+Proof.
+  intros sq ops fresh. cbv zeta. rewrite gen_wrun_eq.
+  exact (C10_weighted_accumulators_are_textbook_sums sq ops).
+Qed.
+Print Assumptions C10_generated_weighted_accumulators_are_textbook_sums.
+
+(* C10_weighted_getters_total, for the generated getters *)
+Theorem C10_generated_weighted_getters_total :
+  forall sq, sqrt_respects_eq sq -> forall (ops : list (wop (NumQ sq))) (fresh : wstate (NumQ sq)),
+    let NQ := NumQ sq in
+    let s := gen_wrun NQ (state_of (gen_WeightedTally___init__ NQ fresh NameStr)) ops in
+    no_raise (gen_WeightedTally_weighted_mean NQ s) /\
+    (forall b, no_raise (gen_WeightedTally_weighted_variance NQ s b)) /\
+    (forall b, no_raise (gen_WeightedTally_weighted_stdev NQ s b)).
+Proof.
+  intros sq S ops fresh. cbv zeta. rewrite gen_wrun_eq.
+  destruct (C10_weighted_getters_total sq S ops) as [A [B C]].
+  repeat split; intros;
+    rewrite ?gen_WeightedTally_weighted_mean_eq, ?gen_WeightedTally_weighted_variance_eq,
+            ?gen_WeightedTally_weighted_stdev_eq;
+    [exact A | exact (B b) | exact (C b)].
+Qed.
+Print Assumptions C10_generated_weighted_getters_total.
+
+(* C10_time_average, for the generated register / end_observations of the
+   timestamped tally (initialised by the generated initialize) *)
+Theorem C10_generated_time_average :
+  forall sq t0 v0 rest T, nondecr_from t0 rest T ->
+  forall fresh : tsstate (NumQ sq),
+    let NQ := NumQ sq in
+    let s := gen_tsrun NQ (state_of (gen_TimestampWeightedTally_initialize NQ fresh))
+                       (map (tsreg sq) ((t0, v0) :: rest) ++ [tsend sq T]) in
+    gen_TimestampWeightedTally_isactive NQ s = false /\
+    wsw (ts_w s) == T - t0 /\
+    gen_WeightedTally_weighted_sum NQ (ts_w s) == integ_from t0 v0 rest T /\
+    (t0 < T -> res_is (gen_WeightedTally_weighted_mean NQ (ts_w s)) (integ_from t0 v0 rest T / (T - t0))) /\
+    (T == t0 -> gen_WeightedTally_weighted_mean NQ (ts_w s) = NaNres).
+Proof.
+  intros sq t0 v0 rest T H fresh. cbv zeta. rewrite gen_tsrun_eq.
+  exact (C10_time_average sq t0 v0 rest T H).
+Qed.
+Print Assumptions C10_generated_time_average.
